@@ -37,8 +37,8 @@ claim("C06",
       TRUST, "DESIGN.md §3.6, §4 C06")
 
 claim("C09",
-      "custom AST/CFG concurrency-protocol analysis (captured-variable ordering, WaitGroup/channel pairing, serial/concurrent sibling agreement) + pool typestate",
-      "The synchronisation structure behind C09 decided at every go statement and every pooled workspace: shared writes are mutex- or WaitGroup-ordered with all other accesses, Add/Done/Wait and close/range are paired, serial and concurrent siblings read the same settings, workspaces are never double-put, used after put or retained. Schedules are not explored and nothing runs; arithmetic tile disjointness and bit-identical sums are NOT decided.",
+      "custom AST/CFG concurrency-protocol analysis (captured-variable ordering, WaitGroup/channel pairing, serial/concurrent sibling agreement) + pool typestate + who-may-write lint over package-level state",
+      "The synchronisation structure behind C09 decided at every go statement and every pooled workspace: shared writes are mutex- or WaitGroup-ordered with all other accesses, Add/Done/Wait and close/range are paired, serial and concurrent siblings read the same settings, workspaces are never double-put, used after put or retained; outside init no function of the module writes package-level state without a lock (six documented setters tabled). Schedules are not explored and nothing runs; arithmetic tile disjointness and bit-identical sums are NOT decided.",
       TRUST, "DESIGN.md §3.7, §3.8, §4 C09")
 claim("C19",
       "custom CFG must-pass-through analysis of the Method.Run shutdown protocol with computed helper summaries; CFG must-assign analysis of optimizer Init methods",
@@ -55,8 +55,8 @@ claim("C16",
       "The decoder-totality mechanisms of C16 decided for all paths of the binary decoders and graph6 accessors: decoded products are overflow-guarded, decoded shift counts/sizes are range-checked, variable-length fields are length-checked, compatibility comparisons are non-trivial, raw accesses are behind IsValid, every field an encoder writes out is stored by the matching decoder (23 codec pairs), hll64.go mirrors hll32.go. Round trips, DOT/N-Quads grammars and RDF canonicalisation are NOT decided.",
       TRUST, "DESIGN.md §3.10, §4 C16")
 claim("C17",
-      "custom CFG field-definition analysis of Reset, pointwise/sibling lint over window functions, bounds-twin comparison",
-      "The structural clauses of C17 decided: Reset redefines every field on every path, window functions are pointwise and agree with their Complex siblings in weight expression, fftpack's bounds twins agree. The transforms' arithmetic is NOT decided.",
+      "custom CFG field-definition analysis of Reset, pointwise/sibling lint over window functions, bounds-twin comparison, who-may-write lint over package-level state",
+      "The structural clauses of C17 decided: Reset redefines every field on every path, window functions are pointwise and agree with their Complex siblings in weight expression, fftpack's bounds twins agree, the dsp packages keep no unsynchronised package-level mutable state (a transform's answer cannot depend on other goroutines' use). The transforms' arithmetic is NOT decided.",
       TRUST, "DESIGN.md §3.11, §4 C17")
 claim("C18",
       "exact constant evaluation of tables in the source (rationals / 320-bit floats); serial-concurrent sibling lint",
